@@ -36,10 +36,10 @@ RULE = ('every ordered pair of the value alphabet (quick 32, thorough 50 '
         'transitivity_triples); a case is non-trivial when the reference '
         'judges it and the two operands are different alphabet entries')
 BOUNDS = {
-    'quick': {'alphabet': 41, 'routes': 6, 'operators': 6,
-              'triples_per_full_route': 39 ** 3},
-    'thorough': {'alphabet': 58, 'routes': 9, 'operators': 6,
-                 'triples_per_full_route': 56 ** 3},
+    'quick': {'alphabet': 43, 'routes': 6, 'operators': 6,
+              'triples_per_full_route': 41 ** 3},
+    'thorough': {'alphabet': 60, 'routes': 9, 'operators': 6,
+                 'triples_per_full_route': 58 ** 3},
 }
 ASSUMPTIONS = [
     'the order stated in the property (reference model xlmc/ref/order.py, '
@@ -90,6 +90,8 @@ QUICK = [
     _text('B'), _text('true'), _text('FALSE'), _text('é'),
     # letters whose upper- and lower-case mappings are not inverse (laws only)
     _text('straße'), _text('STRASSE'),
+    # a hyphen or an apostrophe is a character like any other
+    _text('-1'), _text('a-b'),
     {'id': 'b:FALSE', 'cls': 'bool', 'carrier': 'bool', 'v': False},
     {'id': 'b:TRUE', 'cls': 'bool', 'carrier': 'bool', 'v': True},
     {'id': 'blank', 'cls': 'blank', 'carrier': 'absent', 'v': None},
@@ -102,7 +104,7 @@ EXTRA = [
     _num('f-1e10', 'float', -1e10), _num('f10.0', 'float', 10.0),
     _num('npi1', 'npint', 1), _num('npf2.5', 'npfloat', 2.5),
     _num('i61', 'int', 61), _date(1900, 3, 1),
-    _text('É'), _text('TRUE'), _text('abc'), _text('Ab'), _text('-1'),
+    _text('É'), _text('TRUE'), _text('abc'), _text('Ab'), _text("it's"),
     _text('z'), _text(' a'), _text('a b'), _text('2020-01-01'),
 ]
 ALPHABET = {'quick': QUICK, 'thorough': QUICK + EXTRA}
@@ -340,6 +342,20 @@ def run_route(route, tier, ctx):
         blank = a['cls'] == 'blank' or b['cls'] == 'blank'
         for op in ref.OPS:
             if blank and ref.holds(op, abstract(a), abstract(b)) is None:
+                eq = ref.holds('eq', abstract(a), abstract(b))
+                if op == 'ne' and eq is not None:
+                    # "a<>b equals not(a=b)" binds blanks as well
+                    obs = observe(route, op, a, b)
+                    key = point_key(route, op, a, b)
+                    if obs == show_bool(not eq):
+                        ctx.ok(key, obs, True)
+                    else:
+                        ctx.fail(key, pair_tags(route, a, b) + [
+                            'op:ne', 'law:ne-is-not-eq', 'operand:blank'],
+                            {'kind': 'point', 'route': route, 'op': op,
+                             'a': a['id'], 'b': b['id']},
+                            show_bool(not eq), obs, True)
+                    continue
                 ctx.skip('blank-ordering-unspecified' if op != 'eq'
                          else 'blank-eq-unlisted-value')
                 continue
@@ -388,7 +404,16 @@ def replay(inputs, ctx):
     a, b = BY_ID[inputs['a']], BY_ID[inputs['b']]
     if inputs['kind'] == 'point':
         op = inputs['op']
-        judge_point(route, op, a, b, observe(route, op, a, b), ctx)
+        eq = ref.holds('eq', abstract(a), abstract(b))
+        if op == 'ne' and ref.holds(op, abstract(a), abstract(b)) is None \
+                and eq is not None:
+            obs = observe(route, op, a, b)
+            ctx.check(point_key(route, op, a, b), obs, show_bool(not eq),
+                      pair_tags(route, a, b) + ['op:ne', 'law:ne-is-not-eq',
+                                                'operand:blank'],
+                      dict(inputs), True)
+        else:
+            judge_point(route, op, a, b, observe(route, op, a, b), ctx)
     elif inputs['kind'] == 'pair':
         judge_pair(route, a, b,
                    {o: observe(route, o, a, b) for o in ref.OPS},
@@ -403,7 +428,7 @@ def replay(inputs, ctx):
 
 def selftest():
     ref.selftest()
-    assert len(QUICK) == 41 and len(ALPHABET['thorough']) == 58
+    assert len(QUICK) == 43 and len(ALPHABET['thorough']) == 60
     ids = [v['id'] for v in ALPHABET['thorough']]
     assert len(ids) == len(set(ids))
     texts = [v['v'] for v in ALPHABET['thorough'] if v['cls'] == 'text']
@@ -432,7 +457,7 @@ TECHNIQUE = ('bounded-exhaustive enumeration of ordered pairs of a value '
              'library, against a reference rank, plus the order laws '
              '(trichotomy, consistency, converse, transitivity over all '
              'triples) evaluated on the observed relation')
-LEVEL_TEXT = ('All ordered pairs of 41 (thorough: 58) representative values '
+LEVEL_TEXT = ('All ordered pairs of 43 (thorough: 60) representative values '
               '- ints, floats, equal int/float pairs, dates with serials '
               'between the numbers, empty / numeric-looking / boolean-looking '
               '/ mixed-case / prefix texts, a non-ASCII text, both logicals '
